@@ -118,4 +118,17 @@ func TestC03(t *testing.T) {
 	runProp(t, "C03", "epochs", 400, 8000, genScenario(ScenarioCfg{MaxEpochs: pick(20, 50), Structural: true, Parallel: 0}), CheckC03)
 }
 
-func init() { registerReplay("C03", "epochs", CheckC03) }
+// operator histories: the harness controls the generation boundary, so identical innovations within a generation and
+// re-invention after the record was forgotten are frequent
+func CheckC03History(c HistoryCase, rec *Rec) error {
+	return runHistory(c, historyChecks{c03: true}, rec)
+}
+
+func TestC03History(t *testing.T) {
+	runProp(t, "C03", "history", 2000, 30000, genHistory(pick(60, 150)), CheckC03History)
+}
+
+func init() {
+	registerReplay("C03", "epochs", CheckC03)
+	registerReplay("C03", "history", CheckC03History)
+}
